@@ -89,16 +89,18 @@ class GopherPlusProtocol(GopherProtocol):
         blockname = block[1:].lower()
 
         if blockname.upper() in entry.geteadict():
+            value = entry.getea(blockname.upper())
+            lines = value.splitlines()
+            if value.endswith("\n"):
+                # The text is the file's lines joined by "\n": it ends with
+                # "\n" exactly when the last line is blank, and splitlines()
+                # would silently drop that line.
+                lines.append("")
             return (
                 "+"
                 + blockname.upper()
                 + ":\r\n"
-                + "".join(
-                    [
-                        " " + x + "\r\n"
-                        for x in entry.getea(blockname.upper()).splitlines()
-                    ]
-                )
+                + "".join([" " + x + "\r\n" for x in lines])
             )
 
         # Not in there -- look up a custom function.
